@@ -15,9 +15,13 @@ def run(ctx):
         'rejected by a terminating guard on every path between the last '
         'definition of req_dz and the mesh loop; req_dz has one writer',
         'R2 _check_dz returns req_dz or the (positive) distance to the first '
-        'strictly-crossed boundary',
+        'strictly-crossed boundary (on the returned values: abstract '
+        'interpretation with strict inequalities and first / none knowledge, '
+        'rules/_f_c04.py step_clause; the recorded spelling is also matched '
+        'as a form)',
         'R3 the boundary set merges all four sources, rounded and uniqued; '
-        'core length is its last element',
+        'core length is its last element (finite-domain evaluation on model '
+        'reactors with symbolic mesh points, rules/_c05_r3.py)',
         'R4 the requirement is the floored minimum; the user value replaces '
         'it only when not larger; the cap only lowers it',
         'R5 premise shared with C04.R1-R3: the per-cell step criteria that '
@@ -200,8 +204,58 @@ def _first_true_index(e, name):
     return any(s == f % name for f in forms)
 
 
+def _r2_values(ctx):
+    """The clause of R2 decided on the values `_check_dz` returns
+    (rules/_f_c04.py: step_clause): every returned step is req_dz or bound -
+    z, at most req_dz, positive, and no boundary lies strictly inside (z, z +
+    step).  Fails closed when that analysis is not there."""
+    try:
+        from ._f_c04 import step_clause
+    except ImportError:
+        raise AnalysisError('C05.R2: the value-based analysis of _check_dz '
+                            '(rules/_f_c04.py: step_clause) is missing')
+    return step_clause(ctx, 'C05.R2')
+
+
+def _r2_recorded_spelling(fi):
+    """`_check_dz` is written the recorded way: a mask comprehension
+    `cross_boundary` over self.axial_bnds whose entries compare z and z +
+    self.req_dz with the element, an index `crossed_bound` into it, and the
+    two returns `self.req_dz` / `np.around(self.axial_bnds[..] - z, 12)`.
+    Only which comparison operators and which index are used is left open
+    (that is what the form rule decides)."""
+    cb = U.single_def(fi.node, 'cross_boundary')
+    if not (isinstance(cb, ast.ListComp) and len(cb.generators) == 1 and
+            src(cb.generators[0].iter) == 'self.axial_bnds' and
+            isinstance(cb.generators[0].target, ast.Name) and
+            not cb.generators[0].ifs):
+        return False
+    bi = cb.generators[0].target.id
+    conj = cb.elt.values if isinstance(cb.elt, ast.BoolOp) and isinstance(
+        cb.elt.op, ast.And) else [cb.elt]
+    for c in conj:
+        cp = U.compare_parts(c)
+        if cp is None or {src(cp[0]), src(cp[2])} not in (
+                {'z', bi}, {'z + self.req_dz', bi}):
+            return False
+    if U.single_def(fi.node, 'crossed_bound') is None:
+        return False
+    rets = [n for n in walk_no_nested(fi.node) if isinstance(n, ast.Return)]
+    return len(rets) == 2 and all(
+        r.value is not None and (
+            src(r.value) == 'self.req_dz' or match(
+                'np.around(self.axial_bnds[crossed_bound] - z, 12)',
+                r.value) is not None) for r in rets)
+
+
 def r2(ctx):
     fi = ctx.repo.func('reactor', 'Reactor._check_dz')
+    # the clause on values, whatever the spelling
+    _r2_values(ctx)
+    # the recorded spelling (mask comprehension, any(), first true index) is
+    # also matched as a form; any other spelling is decided on values alone
+    if not _r2_recorded_spelling(fi):
+        return
     rets = [n for n in walk_no_nested(fi.node) if isinstance(n, ast.Return)]
     ok_rets = True
     for r in rets:
@@ -264,60 +318,18 @@ def r2(ctx):
 
 
 def r3(ctx):
-    fi = ctx.repo.func('reactor', 'Reactor._setup_axial_region_bnds')
-    srcs = {
-        'binary fine mesh': "ax_bnd += list(self.power['dif3d'].z_finemesh * "
-                            "0.01)",
-        'user power mesh': "ax_bnd += list(self.power['user'][ai][1]['zfm'] "
-                           "* 0.01)",
-        'region z_lo': "ax_bnd.append(tmp[r]['z_lo'])",
-        'region z_hi': "ax_bnd.append(tmp[r]['z_hi'])",
-        'requested planes': "ax_bnd += self._options['axial_plane']",
-    }
-    for what, pat in srcs.items():
-        mode = 'stmt' if '+=' in pat else 'expr'
-        h = find_all(pat, fi.node, mode)
-        ctx.require(len(h) == 1, 'C05.R3', fi, h[0][0] if h else fi.node,
-                    'boundary source "%s" must be merged into the plane set'
-                    % what, key='%s | source %s' % (fi.full, what))
-    # loops cover all items
-    for pat, it in (("self.power['user']", "range(len(self.power['user']))"),
-                    ('assemblies', "inp.data['Assembly'].keys()"),
-                    ('regions', 'tmp.keys()')):
-        ok = any(isinstance(n, ast.For) and src(n.iter) in (
-            it, it[:-7] if it.endswith('.keys()') else it)
-                 for n in walk_no_nested(fi.node))
-        ctx.require(ok, 'C05.R3', fi, fi.node,
-                    'boundary collection must iterate over %s' % it,
-                    key='%s | iterate %s' % (fi.full, it))
-    tmp = U.single_def(fi.node, 'tmp')
-    ctx.require(tmp is not None and src(tmp) ==
-                "inp.data['Assembly'][a]['AxialRegion']", 'C05.R3', fi,
-                tmp if tmp is not None else fi.node,
-                'regions must be read from the assembly being iterated',
-                key=fi.full + ' | regions of a')
-    # the stored boundary set is unique(around(<accumulated list>, 12)),
-    # directly or through a re-binding of the accumulator
-    st_ab = [st for t, st in U.stores(fi.node)
-             if src(t) == 'self.axial_bnds' and isinstance(st, ast.Assign)]
-    ok_ru = False
-    if len(st_ab) == 1:
-        v = st_ab[0].value
-        if isinstance(v, ast.Name):
-            ds = [d for d in U.assigns_of(fi.node, v.id)
-                  if isinstance(d, ast.Assign) and d.lineno < st_ab[0].lineno]
-            v = ds[-1].value if ds else v
-        m_ = match('np.unique(np.around(Q_x, 12))', v)
-        ok_ru = m_ is not None and isinstance(m_['Q_x'], ast.Name)
-    ctx.require(ok_ru, 'C05.R3', fi, st_ab[0] if st_ab else fi.node,
-                'bounds must be rounded to 1e-12 and uniqued (sorted)',
-                key=fi.full + ' | round unique')
-    h2 = find_all('self.core_length = self.axial_bnds[-1]', fi.node, 'stmt')
-    ok = len(h2) == 1 and len(st_ab) == 1 and \
-        st_ab[0].lineno < h2[0][0].lineno
-    ctx.require(ok, 'C05.R3', fi, h2[0][0] if h2 else fi.node,
-                'core length must be the last (largest) boundary',
-                key=fi.full + ' | core length')
+    """Decided on values (rules/_c05_r3.py): `_setup_axial_region_bnds` is
+    evaluated by the finite-domain evaluator on model reactors (every
+    combination of power sources and requested planes; every mesh point,
+    region bound and plane a distinct symbol); the stored boundary set must be
+    unique(around(L, 12)) with every element of every present source in L
+    (power meshes x 0.01), and the core length its last element."""
+    try:
+        from . import _c05_r3 as V
+    except ImportError:
+        raise AnalysisError('C05.R3: the value-based analysis of the '
+                            'boundary set (rules/_c05_r3.py) is missing')
+    V.check(ctx, 'C05.R3')
 
 
 def r4(ctx):
